@@ -10,6 +10,7 @@ CONSTANTS
   Probs = {"P1", "P2", "P3", "P4"}
   Pads = {0}
   Padfs = {0}
+  Showdups = {FALSE}
 VIEW view
 PROPERTIES Prop_C17
 CHECK_DEADLOCK FALSE
